@@ -1,4 +1,6 @@
 import RxnModel.Proofs.KeyedState
+import RxnModel.Proofs.KeyedStateLsm
+import RxnModel.Props.C07
 /-!
 # C03 — keyed state behaves as a per-key map the handler fully controls
 
@@ -86,17 +88,18 @@ theorem batch_semantics (kgc : Nat) (bs : List Batch) (hwf : ∀ b ∈ bs, b.WF)
 
 /-- **Batch rule across checkpoints and restores** ("since job start or since the restored checkpoint"). For every
 history of handler invocations (events are keyed events and timer-expired events alike: `fired` are the timers the
-watermark popped before the invocation), DKV checkpoints and redeploys from the latest checkpoint: invocation `i`
-receives one key state per distinct event key, and the state for `k` is the replay of the mutations returned by the
-*effective* earlier invocations — those before the restored checkpoint and those since the restore; what was returned
-between a checkpoint and the restore from it is gone, nothing else is lost or added. -/
+watermark popped before the invocation), DKV checkpoints with ids, and redeploys from ANY retained checkpoint id (the
+latest one, or an older one — recovery restores the newest checkpoint the job published, which can be older than the
+operator's own latest): invocation `i` receives one key state per distinct event key, and the state for `k` is the
+replay of the mutations returned by the *effective* earlier invocations — those before the restored checkpoint and
+those since the restore; what was returned after the restored checkpoint is gone, nothing else is lost or added. -/
 theorem restore_semantics (kgc : Nat) (steps : List OpStep) (hwf : ∀ b, OpStep.batch b ∈ steps → b.WF)
     (i : Nat) (b : Batch) (hb : steps[i]? = some (.batch b)) :
     ∃ obs, (runOps kgc {} steps)[i]? = some (some obs) ∧
       obs.map (·.1) = distinctKeys b.events ∧
       ∀ k st, (k, st) ∈ obs →
         Matches st (specLookup ((effective (steps.take i)).1.flatMap (fun b => b.resp.flatMap KeyResult.lwrites)) k) := by
-  have h := runOps_get kgc steps {} ([], none) (opInv_init kgc) i b hb
+  have h := runOps_get kgc steps {} ([], []) (opInv_init kgc) i b hb
   refine ⟨_, h, by simp [List.map_map, Function.comp_def], ?_⟩
   intro k st hmem
   simp only [List.mem_map, Prod.mk.injEq] at hmem
@@ -104,10 +107,10 @@ theorem restore_semantics (kgc : Nat) (steps : List OpStep) (hwf : ∀ b, OpStep
   subst e1
   have hbm : OpStep.batch b ∈ steps := List.mem_of_getElem? hb
   have hkl := (hwf b hbm).1 k' ((distinctKeys_mem _ _).mp hk')
-  have heff : ∀ b' ∈ ((steps.take i).foldl effStep ([], none)).1, b'.WF :=
-    eff_all Batch.WF (steps.take i) ([], none) (by simp) (by simp)
+  have heff : ∀ b' ∈ ((steps.take i).foldl effStep ([], [])).1, b'.WF :=
+    eff_all Batch.WF (steps.take i) ([], []) (by simp) (by simp)
       (fun b' hb' => hwf b' (List.mem_of_mem_take hb'))
-  have hactswf : ∀ a ∈ ((steps.take i).foldl effStep ([], none)).1.flatMap Batch.acts ++ b.firedActs, a.WF := by
+  have hactswf : ∀ a ∈ ((steps.take i).foldl effStep ([], [])).1.flatMap Batch.acts ++ b.firedActs, a.WF := by
     intro a ha
     rcases List.mem_append.mp ha with ha | ha
     · obtain ⟨b', hb', hab⟩ := List.mem_flatMap.mp ha
@@ -117,6 +120,65 @@ theorem restore_semantics (kgc : Nat) (steps : List OpStep) (hwf : ∀ b, OpStep
   rw [List.flatMap_append, firedActs_lwrites, List.append_nil, batches_lwrites] at this
   rw [← e2]
   exact this
+
+/-! ## "regardless of how the state has been batched, flushed or compacted underneath"
+
+The theorems above read and write the sorted-map specification `KV`. The following ones place the same store on the LSM
+transition system of C07 (`Model/Lsm.lean`: memtable queue, level 0..n, rotation, flush begin/commit, compaction commit
+with any change set passing `safeCS`, two-phase reads) and use C07's proved scan refinement, so that the timing of
+rotation, flush and compaction is universally quantified inside the C03 statement itself. -/
+
+/-- **The LSM's ScanPrefix is the sorted map's scan.** For every LSM history `as` (writes, rotations, flush
+begins/commits, compaction commits, point reads, in any order) whose foreground writes are, in order, the writes the
+store issued for `acts`, and every prefix: the scan of the reached LSM state is the scan of `run kgc [] acts`. -/
+theorem lsm_scan_refines_kv (kgc : Nat) (acts : List Act) (as : List Lsm.Act) (s : Lsm.State) (m : Lsm.Spec)
+    (hrun : Lsm.runBoth {} [] as = some (s, m)) (hw : writesOf as = acts.flatMap (Act.rawWrites kgc)) (p : Bytes) :
+    kvOfRun (Lsm.scan s p) = (run kgc [] acts).scan p := by
+  have hm : ∀ k, Lsm.answer (Lsm.Spec.get m k) = lastW (acts.flatMap (Act.rawWrites kgc)) k none := by
+    intro k; rw [← hw]; exact answer_spec k as {} [] s m hrun
+  obtain ⟨hs, hr⟩ := C07.scan_returns_live_keys as s m hrun p
+  exact run_eq_kv_scan kgc acts m p _ hm hs hr
+
+/-- **GetState over the LSM.** After any sequence of `ApplyMutations` calls and timer writes, executed on the LSM with
+memtable rotations, flushes and compactions committing at arbitrary points (also between the single writes of one
+call), `GetState k` is exactly the per-key map of the mutations returned for `k`. -/
+theorem getState_over_lsm (kgc : Nat) (acts : List Act) (hwf : ∀ a ∈ acts, a.WF)
+    (as : List Lsm.Act) (s : Lsm.State) (m : Lsm.Spec)
+    (hrun : Lsm.runBoth {} [] as = some (s, m)) (hw : writesOf as = acts.flatMap (Act.rawWrites kgc))
+    (k : Bytes) (hk : k.length < 2 ^ 32) :
+    getStateLsm kgc s k = getState kgc (run kgc [] acts) k ∧
+    Matches (getStateLsm kgc s k) (specLookup (acts.flatMap Act.lwrites) k) := by
+  have e : getStateLsm kgc s k = getState kgc (run kgc [] acts) k := by
+    simp only [getStateLsm, getState, decoded, lsm_scan_refines_kv kgc acts as s m hrun hw]
+  exact ⟨e, by rw [e]; exact getState_matches kgc acts hwf k hk⟩
+
+/-- the same when the scan runs in two phases (`db.mtables.ScanPrefix` in state `sA`, `db.currentSSTables()` later in
+state `sB`) with arbitrary background commits `as₂` in between: no flush or compaction landing inside a `GetState`
+changes what it returns -/
+theorem getState_over_lsm_two_phase (kgc : Nat) (acts : List Act) (hwf : ∀ a ∈ acts, a.WF)
+    (as₁ as₂ : List Lsm.Act) (sA sB : Lsm.State) (m m' : Lsm.Spec)
+    (h1 : Lsm.runBoth {} [] as₁ = some (sA, m)) (hw : writesOf as₁ = acts.flatMap (Act.rawWrites kgc))
+    (hnw : Lsm.noWrite as₂ = true) (h2 : Lsm.runBoth sA m as₂ = some (sB, m'))
+    (k : Bytes) (hk : k.length < 2 ^ 32) :
+    Matches (group (decodedOf (kvOfRun (Lsm.scan2 sA sB (Keys.subjectKey kgc k)))))
+      (specLookup (acts.flatMap Act.lwrites) k) := by
+  have hm : ∀ k, Lsm.answer (Lsm.Spec.get m k) = lastW (acts.flatMap (Act.rawWrites kgc)) k none := by
+    intro k; rw [← hw]; exact answer_spec k as₁ {} [] sA m h1
+  obtain ⟨_, hs, hr⟩ := C07.two_phase_scan as₁ as₂ sA sB m m' h1 hnw h2 (Keys.subjectKey kgc k)
+  rw [run_eq_kv_scan kgc acts m _ _ hm hs hr]
+  exact getState_matches kgc acts hwf k hk
+
+/-- **Batch rule over the LSM.** Whatever rotations, flushes and compactions happened underneath before invocation `i`
+fetches its states (LSM history `as` whose foreground writes are those of the earlier invocations' results and of the
+timers fired so far): the state fetched for every event key is the replay of the mutations returned by invocations `< i`. -/
+theorem batch_semantics_over_lsm (kgc : Nat) (bs : List Batch) (hwf : ∀ b ∈ bs, b.WF) (i : Nat) (b : Batch)
+    (hb : bs[i]? = some b) (as : List Lsm.Act) (s : Lsm.State) (m : Lsm.Spec)
+    (hrun : Lsm.runBoth {} [] as = some (s, m))
+    (hw : writesOf as = (histBefore bs i).flatMap (Act.rawWrites kgc)) (k : Bytes) (hk : k ∈ b.events) :
+    Matches (getStateLsm kgc s k) (specLookup (mutsBefore bs i) k) := by
+  have hbm : b ∈ bs := List.mem_of_getElem? hb
+  have := (getState_over_lsm kgc (histBefore bs i) (histBefore_wf bs hwf i) as s m hrun hw k ((hwf b hbm).1 k hk)).2
+  rwa [histBefore_lwrites] at this
 
 /-- the length fields of the model's encoders are the ones the source writes (facts regenerated from
 `keyed_state_store.go` on every run): width and byte order of the subject-key length, and the width of the length
@@ -170,21 +232,50 @@ example : (runBatches 2 [] demoBatches)[1]? = some [([0x6b], [([0x61], [([1], [2
 set_option synthInstance.maxSize 1024 in
 example : (runBatches 2 [] demoBatches)[2]? = some [([0x6b], [])] := by decide
 
-/-- checkpoint, more mutations, restore: the second invocation's delete is forgotten, the first invocation's put stays;
-the third step's events are timer-expired events of the timer the first invocation set -/
+/-- two checkpoints, more mutations, restore of the OLDER checkpoint: the put of the first invocation stays, the
+mutations of the second and third invocation are forgotten; the last step's events are timer-expired events of the timer
+the first invocation set -/
 def demoSteps : List OpStep :=
   [ .batch { fired := [], events := [[0x6b]], resp := [{ key := [0x6b], timers := [7], muts := [([0x61], [.put [1] [2]])] }] },
-    .ckpt,
+    .ckpt 1,
     .batch { fired := [], events := [[0x6b]], resp := [{ key := [0x6b], timers := [], muts := [([0x61], [.del [1], .put [3] [4]])] }] },
-    .restore,
+    .ckpt 2,
+    .batch { fired := [], events := [[0x6b]], resp := [{ key := [0x6b], timers := [], muts := [([0x61], [.put [5] [6]])] }] },
+    .restore 1,
     .batch { fired := [([0x6b], 7)], events := [[0x6b]], resp := [] } ]
 
 set_option synthInstance.maxSize 1024 in
 example : runOps 2 {} demoSteps =
-    [some [([0x6b], [])], none, some [([0x6b], [([0x61], [([1], [2])])])], none, some [([0x6b], [([0x61], [([1], [2])])])]] := by
+    [some [([0x6b], [])], none, some [([0x6b], [([0x61], [([1], [2])])])], none,
+     some [([0x6b], [([0x61], [([3], [4])])])], none, some [([0x6b], [([0x61], [([1], [2])])])]] := by
   decide
 
-example : (effective (demoSteps.take 4)).1.length = 1 := by decide
+example : (effective (demoSteps.take 6)).1.length = 1 ∧ (effective (demoSteps.take 6)).2.length = 1 := by decide
+
+/-- the store on the LSM: a put is flushed to a table, its delete sits in a sealed memtable, a later put in the active
+one; the history is accepted by the LSM model, its foreground writes are the store's writes, and `GetState` over the
+layered state is the per-key map -/
+def demoLsmActs : List Act := [.apply [0x61] [([0x61], [.put [1] [2], .del [1], .put [3] [4]])]]
+
+def demoLsm : List Lsm.Act :=
+  [.put (Keys.dbKey 1 [0x61] [0x61] [1]) [2], .rotate, .flushBegin 1, .flushCommit,
+   .del (Keys.dbKey 1 [0x61] [0x61] [1]), .rotate, .put (Keys.dbKey 1 [0x61] [0x61] [3]) [4]]
+
+example : writesOf demoLsm = demoLsmActs.flatMap (Act.rawWrites 1) := by decide
+
+example : ((Lsm.run {} demoLsm).map (fun s => (s.mems.length, s.levels.map List.length))) =
+    some (2, [1, 0, 0, 0, 0, 0]) ∧ (Lsm.runBoth {} [] demoLsm).isSome = true := by decide
+
+example (s : Lsm.State) (m : Lsm.Spec) (h : Lsm.runBoth {} [] demoLsm = some (s, m)) :
+    getStateLsm 1 s [0x61] = [([0x61], [([3], [4])])] := by
+  have hwf : ∀ a ∈ demoLsmActs, a.WF := by
+    intro a ha w hw
+    simp only [demoLsmActs, List.mem_singleton] at ha
+    subst ha
+    simp [Act.lwrites, nsWrites] at hw
+    rcases hw with rfl | rfl | rfl <;> simp [LWrite.WF]
+  rw [(getState_over_lsm 1 demoLsmActs hwf demoLsm s m h (by decide) [0x61] (by decide)).1]
+  decide
 
 /-- the aliasing guard on concrete data -/
 example : Keys.dbKey 1 [] (List.replicate 256 0x6e) [7] = Keys.dbKey 1 [] [] (List.replicate 256 0x6e ++ [7]) :=
